@@ -446,6 +446,17 @@ func c03Show(m *ref.AF) string {
 }
 
 // c03CheckGetters compares every getter of both APIs with the model.
+// c03OtherPacket: adaptation field of 40 bytes with 9 bytes of private data and a 5-byte extension.
+var c03OtherPacket = func() packet.Packet {
+	h := ref.Header{Sync: 0x47, PID: 0x1ABC, AFC: 3, CC: 9}
+	a := &ref.AF{Private: []byte{0xD1, 0xD2, 0xD3, 0xD4, 0xD5, 0xD6, 0xD7, 0xD8, 0xD9}, Ext: []byte{0xE1, 0xE2, 0xE3, 0xE4, 0xE5}}
+	pay := make([]byte, 183-40)
+	for i := range pay {
+		pay[i] = 0xB0 | byte(i&0xF)
+	}
+	return packet.Packet(ref.BuildPacket(h, a, 40, pay))
+}()
+
 func c03CheckGetters(s *c03State, res *engine.Result) {
 	m := s.m
 	snap := s.p
@@ -535,6 +546,19 @@ func c03CheckGetters(s *c03State, res *engine.Result) {
 			}
 		} else if err != nil || !suffixOK(ex, m.Ext) {
 			bad("AdaptationFieldExtension", "method got % x err %v want % x", ex, err, m.Ext)
+		}
+		// the byte-slice results describe THIS packet: the same getters on another packet (which holds
+		// other private data and another extension) must not change them
+		kept := [4][]byte{append([]byte(nil), pd...), append([]byte(nil), fpd...), append([]byte(nil), ebp...), append([]byte(nil), ex...)}
+		o := c03OtherPacket
+		if oaf, oerr := o.AdaptationField(); oerr == nil {
+			_, _ = oaf.TransportPrivateData()
+			_, _ = oaf.AdaptationFieldExtension()
+		}
+		_, _ = adaptationfield.TransportPrivateData(&o)
+		_, _ = adaptationfield.EncoderBoundaryPoint(&o)
+		if !bytes.Equal(kept[0], pd) || !bytes.Equal(kept[1], fpd) || !bytes.Equal(kept[2], ebp) || !bytes.Equal(kept[3], ex) {
+			bad("result-changed-by-a-call-on-another-packet", "private data / extension slices obtained from one packet changed when the getters were called on another")
 		}
 	})
 	if s.p != snap {
